@@ -130,6 +130,10 @@ func traverseNodesWithArrayIndices(context Context, indicesToTraverse []*Candida
 func traverseArrayIndices(context Context, matchingNode *CandidateNode, indicesToTraverse []*CandidateNode, prefs traversePreferences) (*list.List, error) { // call this if doc / alias like the other traverse
 	if matchingNode.Tag == "!!null" {
 		log.Debugf("OperatorArrayTraverse got a null - turning it into an empty array")
+		if context.DontAutoCreate {
+			// reading (select, conditions, variables...): don't vivify the document's own node
+			matchingNode = matchingNode.Copy()
+		}
 		// auto vivification
 		matchingNode.Tag = ""
 		matchingNode.Kind = SequenceNode
